@@ -59,7 +59,7 @@ fn case_pattern(rng: &mut Rng, s: &str) -> Vec<u8> {
 
 pub fn run(cfg: &Cfg, rep: &mut Report) {
     // ---- defined suffixes, all case patterns, many literals; bare numbers
-    let n = cfg.n(100, 8_000_000, 160_000_000);
+    let n = cfg.n(100, 8_000_000, 800_000_000);
     run_cases(cfg, "defined", n, rep, |rng, ctx| {
         let q = &QUANTITIES[(ctx.index % QUANTITIES.len() as u64) as usize];
         let lit = gen_nrf(rng);
@@ -119,7 +119,7 @@ pub fn run(cfg: &Cfg, rep: &mut Report) {
         }
     });
     // ---- undefined suffixes and non-numeric elements must be rejected
-    let n = cfg.n(100, 4_800_000, 96_000_000);
+    let n = cfg.n(100, 4_800_000, 600_000_000);
     run_cases(cfg, "undefined", n, rep, |rng, ctx| {
         let q = &QUANTITIES[(ctx.index % QUANTITIES.len() as u64) as usize];
         let lit = gen_nrf(rng);
@@ -176,7 +176,7 @@ pub fn run(cfg: &Cfg, rep: &mut Report) {
         }
     });
     // ---- amplitude and decibel classification
-    let n = cfg.n(50, 1_800_000, 36_000_000);
+    let n = cfg.n(50, 1_800_000, 360_000_000);
     run_cases(cfg, "classify", n, rep, |rng, ctx| {
         let lit = gen_nrf(rng);
         let x32: f32 = std::str::from_utf8(&lit).unwrap().parse().unwrap();
